@@ -296,7 +296,26 @@ Definition considered (w : world) : list N :=
 Definition changed_inputs (w : world) : list N :=
   filter (fun f => negb (disk w f =? f_hash (files w f))) (considered w).
 
-Definition do_end (w : world) (t : N) (cmd_ok : bool) : world * result :=
+(* Executor._flag_inputs_not_final: an attached input that is BUILT or CONFIRMED when the command
+   returns is reported unfresh when the command started from another recorded hash, or (for an
+   input that was not in the start snapshot, i.e. an amended one) when it is BUILT by a step that
+   ran_concurrently. *)
+Definition flagged_input (w : world) (r : runst) (f : N) : bool :=
+  let row := files w f in
+  flag_input_gen (f_state row)
+    (match sm_get f (r_snap r) with Some _ => true | None => false end)
+    (match sm_get f (r_snap r) with Some h => h =? f_hash row | None => true end)
+    (match f_producer row with Some _ => true | None => false end)
+    (match f_producer row with Some p => ran_conc (bk w) p (c_id w) | None => false end).
+
+Definition attached_inputs (w : world) : list N :=
+  filter (fun f => negb (f_detached (files w f))) (c_init w ++ c_dyn w).
+
+Definition flagged (w : world) (r : runst) : bool := existsb (flagged_input w r) (attached_inputs w).
+
+(* `flagging` = whether execute_job performs that step (generated: exec_flags_inputs_not_final);
+   do_end_gen false is the code before fix a02f82b, kept to name a regression. *)
+Definition do_end_gen (flagging : bool) (w : world) (t : N) (cmd_ok : bool) : world * result :=
   match c_run w with
   | None => (w, RNone)
   | Some r =>
@@ -304,8 +323,9 @@ Definition do_end (w : world) (t : N) (cmd_ok : bool) : world * result :=
       let unexpected := nonempty changed in
       let hash0 := negb unexpected in                     (* step_hash is None iff inp messages *)
       let success0 := r_success r && cmd_ok && negb unexpected in
+      let unfresh0 := r_unfresh r || (flagging && flagged w r) in
       let '(hash_some, wants_defer, success, ru, rf, rehash) :=
-          classify_gen (r_unavail r) (r_unfresh r) success0 hash0 unexpected in
+          classify_gen (r_unavail r) unfresh0 success0 hash0 unexpected in
       let hud := existsb (fun f => dyn_input_unavailable_gen (f_state (files w f))) (c_dyn w) in
       let w := if rehash then rehash_failed w changed else w in
       let '(st, df, interrupted, dc, _, _, _, _) :=
@@ -317,6 +337,8 @@ Definition do_end (w : world) (t : N) (cmd_ok : bool) : world * result :=
       let w := set_draining w (draining w || report_drains_gen tag (keep_going w) || unexpected) in
       (set_run w None, REnd)
   end.
+
+Definition do_end := do_end_gen exec_flags_inputs_not_final.
 
 (* ---- events ---- *)
 Inductive ev :=
